@@ -462,12 +462,17 @@ class IndentAndNameChecker(BaseChecker):
                     # the prefix from menu is not required to propagate to the children
                     return
                 if not common_prefix.startswith(parent_prefix):
-                    raise InputError(
-                        self.path_in_idf,
-                        line_number,
-                        f"Common prefix '{common_prefix}' should start with {parent_prefix}",
-                        line,
-                    )  # no suggested correction for this
+                    # parent_prefix is only the common prefix of the names seen so far on the parent level (it can be
+                    # the full name of a single config), so it is narrowed as long as a long enough prefix remains
+                    joint_prefix = os.path.commonprefix([parent_prefix, common_prefix])
+                    if len(joint_prefix) < self.min_prefix_length:
+                        raise InputError(
+                            self.path_in_idf,
+                            line_number,
+                            f"Common prefix '{common_prefix}' should start with {parent_prefix}",
+                            line,
+                        )  # no suggested correction for this
+                    self.prefix_stack[-1] = joint_prefix
 
     def process_line(self, line, line_number):
         stripped_line = line.strip()
